@@ -6,7 +6,7 @@ from datetime import datetime
 import z3
 
 from . import loader
-from .common import Report
+from .common import Report, guarded, merge_part
 from .db import db
 from .explorer import explore, prove, satisfiable, Unsupported, EX
 from .proxies import SymInt, SymBytes, truth, ev
@@ -31,6 +31,7 @@ def expected_frames(n):
     return 1 if n <= 6 else 1 + (n - 6 + 6) // 7
 
 
+@guarded
 def _len_worker(ns):
     from . import explorer
     explorer.STATS.__init__()
@@ -126,6 +127,7 @@ def _len_worker(ns):
     return dict(violations=rep.violations, inconclusive=rep.inconclusive, errors=rep.harness_errors, samples=rep.samples, stats=explorer.STATS)
 
 
+@guarded
 def _history_worker(spec):
     """consecutive messages on one encoder / one decoder: counter wrap-around and stream re-use"""
     from . import explorer
